@@ -7,12 +7,14 @@ import PrqlModel.Drv.Util
 import PrqlModel.Drv.Target
 import PrqlModel.Drv.Rel
 import PrqlModel.Drv.Lex
+import PrqlModel.Drv.Take
 namespace Drv
 
 def handlers : List (List String → Option String) := [
   Drv.Target.handle,
   Drv.Rel.handle,
-  Drv.Lex.handle
+  Drv.Lex.handle,
+  Drv.Take.handle
 ]
 
 def handle (fields : List String) : String :=
